@@ -11,7 +11,8 @@ def run(res, args):
     ok = tables.prepare(res, "C13", THEOREMS)
     obs = open(common.GEN + "/Obs.v").read()
     n = len(re.findall(r"mkProdObs", obs)) - 1
-    res.cov.update(evaluations=65536 + 256, distinct_nontrivial=n + 10, exhaustive=True,
+    named_types = len(re.findall(r'mkTypeObs "[^"]+"', obs))
+    res.cov.update(evaluations=65536 + 256, distinct_nontrivial=n + named_types, exhaustive=True,
                    rule="complete observation of Exists/Model/Type/String/MaxPanelVoltage/MaxPanelCurrent/GetStringMap on all 65536 ids and of "
                         "String/IsBMV/IsSolar/IsInverter on all 256 types, regenerated from /repo; distinct non-trivial = known products + named types; "
                         "the theorems are closed by computation over the complete table",
